@@ -14,6 +14,7 @@ import threading
 import time
 from concurrent.futures import ThreadPoolExecutor
 
+import common
 from common import (ENV, NCPU, REPLAYS, HarnessError, build_dir, cargo_build, log, repo_dir, repo_state, run_capture, save_replay,
                     sim_dir, tool_build, write_evidence)
 from prng import Rng
@@ -61,7 +62,8 @@ WORD = re.compile(r"[A-Za-z_][A-Za-z0-9_]*")
 
 def build_shim(repo=None):
     sd = sim_dir(repo)
-    out = os.path.join(build_dir(repo), "shim.so")
+    # (a file of this process: a second C14 run must not rewrite the library while this one preloads it)
+    out = os.path.join(common.private_work_dir(build_dir(repo), "shim"), "shim.so")
     src = os.path.join(sd, "proc", "shim.c")
     r = subprocess.run(["gcc", "-O1", "-shared", "-fPIC", "-o", out, src, "-ldl"], stdout=subprocess.PIPE, stderr=subprocess.STDOUT, text=True)
     if r.returncode != 0:
@@ -83,9 +85,7 @@ class Ctx:
         self.permute = os.path.join(cargo_build(["permute"], self.repo), "permute")
         self.shim = build_shim(self.repo)
         self.aslr = aslr_prefix()
-        self.work = os.path.join(build_dir(self.repo), "proc-work")
-        shutil.rmtree(self.work, ignore_errors=True)
-        os.makedirs(self.work)
+        self.work = common.private_work_dir(build_dir(self.repo), "proc-work")
         sd = sim_dir(self.repo)
         self.corpora = {}
         for name, d in (("feature_tests", os.path.join(self.repo, "feature_tests")), ("example", os.path.join(self.repo, "example")), ("vbridge", os.path.join(sd, "rs", "vbridge")), ("shapes", os.path.join(sd, "proc", "shapes"))):
